@@ -57,6 +57,13 @@ Theorem C09_bad_magic : forall r,
   (length MAGIC <= length r)%nat -> firstn (length MAGIC) r <> MAGIC -> dec (MSG_HELLO :: r) = DInvalid.
 Proof. exact bad_magic_rejected. Qed.
 
+(** A configured connection timeout is never exchanged as "no timeout" (which would stop the peer's
+    keep-alive pings), however short it is. *)
+Theorem C09_timeout_presence : forall c,
+  (x_timeout c = None <-> x_timeout (exchanged c) = None) /\
+  (forall ns, x_timeout c = Some ns -> exists ms, 1 <= ms /\ x_timeout (exchanged c) = Some (ms * NS_PER_MS)).
+Proof. exact timeout_presence_exchanged. Qed.
+
 (** Length-prefixed framing on stream transports. *)
 Theorem C09_deframe_frame : forall max payload rest,
   u32 (len payload) = true -> len payload <= max -> deframe max (frame payload ++ rest) = FOk payload rest.
@@ -89,6 +96,7 @@ Print Assumptions C09_hello_exchange.
 Print Assumptions C09_cfg_rejects.
 Print Assumptions C09_unknown_code.
 Print Assumptions C09_bad_magic.
+Print Assumptions C09_timeout_presence.
 Print Assumptions C09_deframe_frame.
 Print Assumptions C09_deframe_too_long.
 Print Assumptions C09_fixed_msg_length.
